@@ -785,7 +785,7 @@ type replayDoc struct {
 }
 
 var recA = ev.New("C15", "owned-schedule",
-	"rapid: plan of 1..24 blocks (a block is one free step, 60%, or a 2..4 step idiom: write met by a smaller read / deadline armed around a blocking call then reached / half-close then reverse traffic / matched transfer / WriteTo into a gated sink with 1..3 steps before the release) over {Write(n), Read(m), WriteTo(sink with capacity), CloseWrite, CloseRead, Close, "+
+	"rapid: plan of 1..24 blocks (a block is one free step, 50%, or a 2..7 step idiom: write met by a smaller read / deadline armed around a blocking call then reached / half-close then reverse traffic / matched transfer / WriteTo into a gated sink with 1..3 steps before the release / a Read or Write started after its deadline expired (set to the past, or armed and reached) while the peer call is parked, then repeated or re-enabled / Close of an end whose read side is already closed (own CloseRead or peer's CloseWrite), then probes on both ends before the peer closes) over {Write(n), Read(m), WriteTo(sink with capacity), CloseWrite, CloseRead, Close, "+
 		"Set{Read,Write,}Deadline(zero | long ago | now-1ns | now+k.5ms), advance virtual time k ms, ReleaseSink} on either end; a WriteTo sink is plain or gated (its Write blocks until a ReleaseSink step, so closes, deadline changes and other calls happen while the destination's Write is pending); write sizes 0..scale, "+
 		"read buffers 0..3*scale, scale in {1..5000}; each call runs in its own goroutine inside a synctest bubble (at most one blocked "+
 		"writer per end, at most 3 blocked readers per end); after every step synctest.Wait() and the set of returned calls with (n, err, data) "+
@@ -980,7 +980,9 @@ func TestFixedPlansA(t *testing.T) {
 			{Op: opRead, End: B, N: 3}, {Op: opCloseRead, End: A}, {Op: opClose, End: A}, {Op: opRead, End: B, N: 1}, {Op: opWrite, End: B, N: 2},
 			{Op: opWrite, End: A, N: 1}, {Op: opRead, End: A, N: 1}},
 			[]string{"", "", "#0 n=0 EOF", "#1 n=0 EOF", "#2 n=0 closed", "#3 n=0 closed", "#4 n=0 closed"},
-			func(f facts) bool { return f.LateClose && f.LateCloseWoke && f.LateClosePRead && f.LateClosePWr && f.LateCloseLWr }},
+			func(f facts) bool {
+				return f.LateClose && f.LateCloseWoke && f.LateClosePRead && f.LateClosePWr && f.LateCloseLWr
+			}},
 	}
 	for _, c := range cases {
 		viol, ci := runPlanA(t, c.plan)
